@@ -369,12 +369,17 @@ Definition h_get_operation (k : skey) (c n : N) : prog :=
 (* ListOptimalTrials *)
 Definition metric_value (m : meas) (id : N) : option xf :=
   option_map snd (find (fun p => N.eqb (fst p) id) (rev m)).   (* dict built left to right: last wins *)
+(* a trial is considered when it SUCCEEDED, reports every configured metric, and none of them is NaN (a NaN objective is
+   incomparable: it would never be dominated) *)
 Definition objective_vector (metrics : list (N * bool)) (t : trial) : option (list xf) :=
   if tstate_eqb (t_state t) SUCCEEDED then
-    fold_right (fun (mg : N * bool) (acc : option (list xf)) =>
+    match fold_right (fun (mg : N * bool) (acc : option (list xf)) =>
                   match acc, metric_value (t_final t) (fst mg) with
                   | Some l, Some v => Some ((if snd mg then v else xneg v) :: l)
-                  | _, _ => None end) (Some []) metrics
+                  | _, _ => None end) (Some []) metrics with
+    | Some l => if existsb is_nan l then None else Some l
+    | None => None
+    end
   else None.
 Definition dominated_by' (yi yj : list xf) : bool := all2 xle yi yj && any2 xgt yj yi.
 Definition optimal_trials (metrics : list (N * bool)) (trials : list trial) : list trial :=
